@@ -78,7 +78,7 @@ NAMES = [
     dict(b='x', asc1='X', asc2='x1', c='x10', fix='W', sig='V', a='x2'),
     dict(b='beta2', asc1='beta10', asc2='beta1', c='Beta3', fix='BETA', sig='B_sig', a='beta_a'),
 ][_A]
-COLUMNS = ['X2', 'CH', 'U0', 'X1', 'W3', 'X3', 'Y', 'W1', 'WG', 'W2']  # table order (not alphabetical, one unused)
+COLUMNS = ['X2', 'CH', 'U0', 'X1', 'W3', 'X3', 'Y', 'W1', 'WG', 'ID', 'W2']  # table order (not alphabetical, one unused)
 
 ALGOS = ['scipy', 'LS-newton', 'TR-newton', 'LS-BFGS', 'TR-BFGS', 'simple_bounds', 'simple_bounds_newton',
          'simple_bounds_BFGS', 'automatic']
@@ -139,7 +139,7 @@ def make_table(tpl, nrows, code):
     rows = []
     for i in range(nrows):
         x1, x2, x3, w1, w2, w3 = ATTR[i]
-        d = dict(X1=x1, X2=x2, X3=x3, W1=w1, W2=w2, W3=w3, U0=float(7 - i), CH=0.0, Y=0.0, WG=1.0)
+        d = dict(X1=x1, X2=x2, X3=x3, W1=w1, W2=w2, W3=w3, U0=float(7 - i), CH=0.0, Y=0.0, WG=1.0, ID=float(i // 2 + 1))
         if tpl['kind'] == 'logit':
             d['CH'] = float(tpl['alts'][code[i]][0])
         else:
@@ -419,18 +419,20 @@ def clip_start(s, lb, ub):
 
 
 # =========================================================================== the real thing
-def build_biogeme(tpl, rows, start, lb, ub, variant, share=True, boot_samples=None, as_dict=False):
+def build_biogeme(tpl, rows, start, lb, ub, variant, share=True, boot_samples=None, as_dict=False, panel=False):
     """start/lb/ub are given over the FREE parameters in template order."""
     import pandas as pd
     import biogeme.biogeme as bb
     import biogeme.database as db
     from biogeme import models
-    from biogeme.expressions import Beta, Variable, log
+    from biogeme.expressions import Beta, Variable, log, PanelLikelihoodTrajectory
     from biogeme.parameters import Parameters
 
     algo, extra = VARIANTS[variant]
     df = pd.DataFrame(rows, columns=COLUMNS)
     d = db.Database('t07', df)
+    if panel:
+        d.panel('ID')  # consecutive pairs of rows form one individual
     free = [k for k, p in enumerate(tpl['params']) if p[1] == 0]
     defs = {}
     for k, p in enumerate(tpl['params']):
@@ -459,7 +461,11 @@ def build_biogeme(tpl, rows, start, lb, ub, variant, share=True, boot_samples=No
 
     if tpl['kind'] == 'logit':
         V = {aid: lin(terms) for aid, terms in tpl['alts']}
-        ll = models.loglogit(V, None, Variable('CH'))
+        if panel:
+            # log of the product over the rows of an individual = sum of the row log likelihoods (the reference)
+            ll = log(PanelLikelihoodTrajectory(models.logit(V, None, Variable('CH'))))
+        else:
+            ll = models.loglogit(V, None, Variable('CH'))
     else:
         sg = beta(tpl['sigma'])
         mu = lin(tpl['mean'])
@@ -713,7 +719,7 @@ def all_multisets(n):
     return [list(v) for v in itertools.combinations_with_replacement(range(n), n)]
 
 
-def check_boot_history(rec, tpl, rows, prob, refs, variant, vecs, case):
+def check_boot_history(rec, tpl, rows, prob, refs, variant, vecs, case, panel=False):
     """History [estimate(run_bootstrap=True) with the resamples `vecs` (owned), calculate_likelihood(x*),
     calculate_likelihood_and_derivatives(x*), estimate()] on one BIOGEME object."""
     import numpy as np
@@ -721,7 +727,12 @@ def check_boot_history(rec, tpl, rows, prob, refs, variant, vecs, case):
 
     nf = len(prob.free)
     N = [None] * nf
-    b, made = build_biogeme(tpl, rows, [0.0] * nf, N, N, variant, boot_samples=len(vecs))
+    b, made = build_biogeme(tpl, rows, [0.0] * nf, N, N, variant, boot_samples=len(vecs), panel=panel)
+
+    def resampled(v):
+        # rows of the resample: the rows themselves, or both rows of each drawn individual (panel)
+        return [rows[i] for i in v] if not panel else [rows[2 * i + t] for i in v for t in (0, 1)]
+
     names_lib = list(b.free_beta_names)
     free_names = [prob.names[k] for k in prob.free]
     perm = [free_names.index(nm) for nm in names_lib]
@@ -734,7 +745,7 @@ def check_boot_history(rec, tpl, rows, prob, refs, variant, vecs, case):
         return np.array(v, dtype=int)
 
     def viol(clause, what, expected=None, observed=None):
-        rec.violation(f'C07|{clause}|history=[estimate(run_bootstrap),{clause.split(":")[-1]}]',
+        rec.violation(f'C07|{clause}|history=[estimate(run_bootstrap{",panel" if panel else ""}),{clause.split(":")[-1]}]',
                       f'{clause}: {what} [model={case["model"]} table={case["code"]} variant={variant} '
                       f'resamples={vecs}]', case, expected=expected, observed=observed)
 
@@ -768,7 +779,7 @@ def check_boot_history(rec, tpl, rows, prob, refs, variant, vecs, case):
     after = float(b.calculate_likelihood(np.array(xs_lib), scaled=False))
     differs = not _rel(after, ll_rep, scale) <= 1e-9
     if differs:
-        samp = Problem(tpl, [rows[i] for i in vecs[-1]])
+        samp = Problem(tpl, resampled(vecs[-1]))
         samp_ll = samp.eval(xs, order=0)[0]
         viol('recomputed-after-bootstrap:calculate_likelihood', f'after estimate(run_bootstrap=True) calculate_likelihood(x*) = '
              f'{after!r} but results.logLike = {ll_rep!r} (the likelihood of the LAST bootstrap sample at x* is {samp_ll!r})',
@@ -782,7 +793,7 @@ def check_boot_history(rec, tpl, rows, prob, refs, variant, vecs, case):
     # bootstrap rows are maxima of the resampled likelihood (only where the reference accepts the resample)
     boot = np.asarray(data.bootstrap, dtype=float)
     for s, v in enumerate(vecs):
-        samp = Problem(tpl, [rows[i] for i in v])
+        samp = Problem(tpl, resampled(v))
         xo, why = free_optimum(samp)
         if xo is None:
             rec.count('bootstrap_resample_without_reference_optimum')
@@ -811,8 +822,8 @@ def check_boot_history(rec, tpl, rows, prob, refs, variant, vecs, case):
         if isinstance(e, RuntimeError):
             rec.retire = True
         rec.count('second_estimate_raised_' + type(e).__name__)
-    nontrivial = any(sorted(v) != list(range(len(rows))) for v in vecs)
-    rec.case(('boot', case['model'], tuple(case['code']), variant, tuple(map(tuple, vecs))) if nontrivial else None,
+    nontrivial = any(sorted(v) != list(range(len(v))) for v in vecs)
+    rec.case(('boot', panel, case['model'], tuple(case['code']), variant, tuple(map(tuple, vecs))) if nontrivial else None,
              ('boot', case['model'], case['code'], variant, vecs, [_r(v) for v in xs], _r(after)),
              outcome=('boot', differs, len(vecs)))
     rec.count('bootstrap_histories')
@@ -846,6 +857,13 @@ def tasks(tier, seed):
         step = (3 if nsymbols(tpl) == 2 else 9) if tier == 'quick' else 4
         for i in range(0, len(codes), step):
             out.append(dict(part='boot', model=model, nrows=nrows, first=i, codes=[list(codes[i])], tier=tier))
+    # the same on panel data (3 individuals x 2 rows; the individual map is resampled)
+    for model in ['L2'] if tier == 'quick' else ['L2', 'L2F', 'L3G']:
+        tpl = T[model]
+        codes = list(itertools.product(range(nsymbols(tpl)), repeat=6))
+        step = 4 if tier == 'quick' else (2 if nsymbols(tpl) == 2 else 9)
+        for i in range(0, len(codes), step):
+            out.append(dict(part='boot', panel=True, model=model, nrows=6, first=i, codes=[list(codes[i])], tier=tier))
     return out
 
 
@@ -873,7 +891,7 @@ def run_task(task):
         rec.count('tables_accepted')
         base = dict(model=task['model'], nrows=task['nrows'], code=list(code))
         if task['part'] == 'boot':
-            _boot_table(rec, tpl, rows, prob, xfree, base, ti, tier)
+            _boot_table(rec, tpl, rows, prob, xfree, base, ti, tier, panel=bool(task.get('panel')))
             continue
         full = (ti % 4 == 0)
         cfgs = bound_configs(xfree, tier, ti)
@@ -906,8 +924,8 @@ def run_task(task):
     return rec.result()
 
 
-def _boot_table(rec, tpl, rows, prob, xfree, base, ti, tier):
-    n = len(rows)
+def _boot_table(rec, tpl, rows, prob, xfree, base, ti, tier, panel=False):
+    n = len(rows) // 2 if panel else len(rows)
     nf = len(prob.free)
     N = [None] * nf
     refs = references(prob, N, N, xfree)
@@ -920,9 +938,9 @@ def _boot_table(rec, tpl, rows, prob, xfree, base, ti, tier):
     if tier == 'thorough':
         hist += [[ms[0], v, ms[-1]] for v in ms]
     for vecs in hist:
-        case = dict(base, part='boot', variant=variant, vecs=vecs)
-        check_boot_history(rec, tpl, rows, prob, refs, variant, vecs, case)
-    rec.sample(dict(base, part='boot', variant=variant, histories=len(hist)))
+        case = dict(base, part='boot', panel=panel, variant=variant, vecs=vecs)
+        check_boot_history(rec, tpl, rows, prob, refs, variant, vecs, case, panel=panel)
+    rec.sample(dict(base, part='boot', panel=panel, variant=variant, histories=len(hist)))
 
 
 # =========================================================================== replay
@@ -938,7 +956,7 @@ def replay(case):
     if case['part'] == 'boot':
         nf = len(prob.free)
         refs = references(prob, [None] * nf, [None] * nf, xfree)
-        check_boot_history(rec, tpl, rows, prob, refs, case['variant'], case['vecs'], case)
+        check_boot_history(rec, tpl, rows, prob, refs, case['variant'], case['vecs'], case, panel=bool(case.get('panel')))
     else:
         refs = references(prob, case['lb'], case['ub'], xfree)
         check_run(rec, tpl, rows, prob, refs, case['bname'], case['lb'], case['ub'], case['bkind'], case['sidx'],
